@@ -18,6 +18,10 @@ use std::time::{Duration, Instant};
 pub const DEFAULT_SEED: u64 = 20260928;
 const PBLOCK: u64 = 128;
 const MAX_V_PER_GROUP: u64 = 2;
+const PARTIAL_EVERY: u64 = 1 << 16;
+const MAX_RESPAWNS: usize = 6;
+/// per-worker cap on the number of distinct state signatures kept (memory bound)
+const SIG_CAP: usize = 1_500_000;
 
 #[derive(Clone, Debug, Serialize, Deserialize)]
 pub struct ReplayFile {
@@ -42,6 +46,8 @@ struct VLine {
 
 #[derive(Clone, Debug, Default, Serialize, Deserialize)]
 struct SLine {
+    #[serde(default)]
+    upto: u64,
     runs: u64,
     progressed_runs: u64,
     ops: u64,
@@ -77,7 +83,7 @@ pub fn gen_scenario<F: Family>(seed: u64, tier: Tier, i: u64) -> F::Scn {
 
 // ------------------------------------------------------------------ worker
 
-pub fn worker<F: Family>(seed: u64, tier: Tier, from: u64, to: u64, trace_idx: bool, digests: bool) {
+pub fn worker<F: Family>(seed: u64, tier: Tier, from: u64, to: u64, trace_idx: bool, digests: bool, skip: &[u64]) {
     install_panic_hook();
     let out = std::io::stdout();
     let mut out = out.lock();
@@ -85,6 +91,15 @@ pub fn worker<F: Family>(seed: u64, tier: Tier, from: u64, to: u64, trace_idx: b
     let mut sigs: BTreeSet<u64> = BTreeSet::new();
     let mut cover: BTreeMap<String, BTreeSet<u64>> = BTreeMap::new();
     for i in from..to {
+        if skip.contains(&i) {
+            continue;
+        }
+        if !trace_idx && i > from && (i - from) % PARTIAL_EVERY == 0 {
+            // partial statistics (without the large sets), so that a later crash of
+            // this process does not lose what was already executed
+            st.upto = i;
+            let _ = writeln!(out, "S {}", serde_json::to_string(&st).unwrap());
+        }
         if trace_idx {
             let _ = writeln!(out, "B {}", i);
             let _ = out.flush();
@@ -99,7 +114,9 @@ pub fn worker<F: Family>(seed: u64, tier: Tier, from: u64, to: u64, trace_idx: b
         st.steps += ctx.steps;
         if ctx.progressed {
             st.progressed_runs += 1;
-            sigs.extend(ctx.sigs.iter());
+            if sigs.len() < SIG_CAP {
+                sigs.extend(ctx.sigs.iter());
+            }
         }
         st.digest_xor ^= ctx.digest.rotate_left((i % 63) as u32);
         for (k, v) in &ctx.cover {
@@ -140,6 +157,7 @@ pub fn worker<F: Family>(seed: u64, tier: Tier, from: u64, to: u64, trace_idx: b
     }
     st.sigs = sigs.into_iter().collect();
     st.cover = cover.into_iter().map(|(k, v)| (k, v.into_iter().collect())).collect();
+    st.upto = to;
     let _ = writeln!(out, "S {}", serde_json::to_string(&st).unwrap());
     let _ = out.flush();
 }
@@ -406,7 +424,7 @@ pub struct Group {
     pub first: Option<(u64, String, Value)>, // (index, detail, scenario)
 }
 
-fn spawn_worker(prop: &str, seed: u64, tier: Tier, from: u64, to: u64, trace_idx: bool) -> std::io::Result<std::process::Child> {
+fn spawn_worker(prop: &str, seed: u64, tier: Tier, from: u64, to: u64, trace_idx: bool, skip: &[u64]) -> std::io::Result<std::process::Child> {
     let mut c = Command::new(self_exe());
     c.arg("worker")
         .arg(prop)
@@ -421,13 +439,17 @@ fn spawn_worker(prop: &str, seed: u64, tier: Tier, from: u64, to: u64, trace_idx
     if trace_idx {
         c.arg("--trace-idx");
     }
+    if !skip.is_empty() {
+        c.arg("--skip")
+            .arg(skip.iter().map(|x| x.to_string()).collect::<Vec<_>>().join(","));
+    }
     c.stdout(Stdio::piped()).stderr(Stdio::null()).spawn()
 }
 
 /// Find the run that hangs/aborts in [from, to): run it index by index.
-fn find_culprit(prop: &str, seed: u64, tier: Tier, from: u64, to: u64, per_run: Duration) -> Option<(u64, bool)> {
+fn find_culprit(prop: &str, seed: u64, tier: Tier, from: u64, to: u64, per_run: Duration, skip: &[u64]) -> Option<(u64, bool)> {
     // returns (index, is_hang)
-    let mut child = spawn_worker(prop, seed, tier, from, to, true).ok()?;
+    let mut child = spawn_worker(prop, seed, tier, from, to, true, skip).ok()?;
     let stdout = child.stdout.take().unwrap();
     let last = Arc::new(Mutex::new((None::<u64>, Instant::now(), false)));
     let l2 = last.clone();
@@ -493,112 +515,214 @@ pub fn parent<F: Family>(opts: &Opts) -> i32 {
             return 2;
         }
     };
-    let stall = Duration::from_secs(if tier == Tier::Quick { 20 } else { 40 });
+    let stall = Duration::from_secs(if tier == Tier::Quick { 8 } else { 20 });
 
-    // ---- run the batch
-    let states: Vec<Arc<Mutex<WorkerState>>> = (0..k)
-        .map(|w| {
-            let from = n * w as u64 / k as u64;
-            let to = n * (w as u64 + 1) / k as u64;
-            Arc::new(Mutex::new(WorkerState {
-                from,
-                to,
-                last_p: from,
+    // ---- run the batch: a queue of index segments served by up to k worker
+    // processes; a worker that dies or stalls is attributed to one scenario and
+    // the rest of its segment is re-queued with that scenario skipped
+    struct Seg {
+        from: u64,
+        to: u64,
+        skip: Vec<u64>,
+    }
+    struct Slot {
+        child: std::process::Child,
+        state: Arc<Mutex<WorkerState>>,
+        thread: Option<std::thread::JoinHandle<()>>,
+        seg: Seg,
+    }
+    let mut queue: std::collections::VecDeque<Seg> = (0..k)
+        .map(|w| Seg {
+            from: n * w as u64 / k as u64,
+            to: n * (w as u64 + 1) / k as u64,
+            skip: vec![],
+        })
+        .collect();
+    let mut slots: Vec<Slot> = Vec::new();
+    let mut finished: Vec<(Option<SLine>, Vec<VLine>)> = Vec::new();
+    let mut harness_errors: Vec<String> = Vec::new();
+    let mut groups: BTreeMap<String, Group> = BTreeMap::new();
+    let mut respawns = 0usize;
+    let mut skipped_runs = 0u64;
+    let replay_dir = opts.verif_dir.join("replays");
+    let _ = std::fs::create_dir_all(&replay_dir);
+    loop {
+        while slots.len() < k {
+            let Some(seg) = queue.pop_front() else { break };
+            if seg.from >= seg.to {
+                continue;
+            }
+            let mut child = match spawn_worker(prop, opts.seed, tier, seg.from, seg.to, false, &seg.skip) {
+                Ok(c) => c,
+                Err(e) => {
+                    println!("HARNESS-ERROR spawn worker: {}", e);
+                    return 2;
+                }
+            };
+            let stdout = child.stdout.take().unwrap();
+            let state = Arc::new(Mutex::new(WorkerState {
+                from: seg.from,
+                to: seg.to,
+                last_p: seg.from,
                 last_seen: Instant::now(),
                 vlines: vec![],
                 sline: None,
                 done: false,
-            }))
-        })
-        .collect();
-    let mut children = Vec::new();
-    let mut threads = Vec::new();
-    for st in &states {
-        let (from, to) = {
-            let g = st.lock().unwrap();
-            (g.from, g.to)
-        };
-        let mut child = match spawn_worker(prop, opts.seed, tier, from, to, false) {
-            Ok(c) => c,
-            Err(e) => {
-                println!("HARNESS-ERROR spawn worker: {}", e);
-                return 2;
-            }
-        };
-        let stdout = child.stdout.take().unwrap();
-        let st2 = st.clone();
-        threads.push(std::thread::spawn(move || {
-            for l in BufReader::new(stdout).lines().map_while(Result::ok) {
-                let mut g = st2.lock().unwrap();
-                g.last_seen = Instant::now();
-                if let Some(r) = l.strip_prefix("P ") {
-                    if let Ok(i) = r.trim().parse::<u64>() {
-                        g.last_p = i;
-                    }
-                } else if let Some(r) = l.strip_prefix("V ") {
-                    if let Ok(v) = serde_json::from_str::<VLine>(r) {
-                        g.vlines.push(v);
-                    }
-                } else if let Some(r) = l.strip_prefix("S ") {
-                    if let Ok(s) = serde_json::from_str::<SLine>(r) {
-                        g.sline = Some(s);
+            }));
+            let st2 = state.clone();
+            let thread = std::thread::spawn(move || {
+                for l in BufReader::new(stdout).lines().map_while(Result::ok) {
+                    let mut g = st2.lock().unwrap();
+                    g.last_seen = Instant::now();
+                    if let Some(r) = l.strip_prefix("P ") {
+                        if let Ok(i) = r.trim().parse::<u64>() {
+                            g.last_p = i;
+                        }
+                    } else if let Some(r) = l.strip_prefix("V ") {
+                        if let Ok(v) = serde_json::from_str::<VLine>(r) {
+                            g.vlines.push(v);
+                        }
+                    } else if let Some(r) = l.strip_prefix("S ") {
+                        if let Ok(s) = serde_json::from_str::<SLine>(r) {
+                            g.sline = Some(s);
+                        }
                     }
                 }
-            }
-            st2.lock().unwrap().done = true;
-        }));
-        children.push(child);
-    }
-    // supervise
-    let mut crashed: Vec<(usize, bool)> = Vec::new(); // (worker, hang?)
-    let mut live: Vec<bool> = vec![true; k];
-    loop {
-        let mut any = false;
-        for w in 0..k {
-            if !live[w] {
-                continue;
-            }
-            match children[w].try_wait() {
-                Ok(Some(status)) => {
-                    live[w] = false;
-                    if !status.success() {
-                        crashed.push((w, false));
+                st2.lock().unwrap().done = true;
+            });
+            slots.push(Slot {
+                child,
+                state,
+                thread: Some(thread),
+                seg,
+            });
+        }
+        if slots.is_empty() {
+            break;
+        }
+        let mut i = 0;
+        while i < slots.len() {
+            let status = slots[i].child.try_wait();
+            let mut failed: Option<bool> = None; // Some(hang?)
+            let mut done = false;
+            match status {
+                Ok(Some(st)) => {
+                    done = true;
+                    if !st.success() {
+                        failed = Some(false);
                     }
                 }
                 Ok(None) => {
-                    any = true;
-                    let seen = states[w].lock().unwrap().last_seen;
+                    let seen = slots[i].state.lock().unwrap().last_seen;
                     if seen.elapsed() > stall {
-                        let _ = children[w].kill();
-                        let _ = children[w].wait();
-                        live[w] = false;
-                        crashed.push((w, true));
+                        let _ = slots[i].child.kill();
+                        let _ = slots[i].child.wait();
+                        done = true;
+                        failed = Some(true);
                     }
                 }
                 Err(_) => {
-                    live[w] = false;
-                    crashed.push((w, false));
+                    done = true;
+                    failed = Some(false);
+                }
+            }
+            if !done {
+                i += 1;
+                continue;
+            }
+            let mut slot = slots.swap_remove(i);
+            if let Some(t) = slot.thread.take() {
+                let _ = t.join();
+            }
+            let (sline, vlines, last_p) = {
+                let mut g = slot.state.lock().unwrap();
+                (g.sline.take(), std::mem::take(&mut g.vlines), g.last_p)
+            };
+            match failed {
+                None => {
+                    if sline.as_ref().map(|s| s.upto) != Some(slot.seg.to) {
+                        harness_errors.push(format!("worker for runs {}..{} ended without final statistics", slot.seg.from, slot.seg.to));
+                    }
+                    finished.push((sline, vlines));
+                }
+                Some(hang) => {
+                    let blk_to = (last_p + PBLOCK).min(slot.seg.to);
+                    println!(
+                        "[{}] worker for runs {}..{} {} in runs {}..{}; locating the scenario",
+                        prop,
+                        slot.seg.from,
+                        slot.seg.to,
+                        if hang { "stalled" } else { "died" },
+                        last_p,
+                        blk_to
+                    );
+                    let upto = sline.as_ref().map(|s| s.upto).unwrap_or(slot.seg.from);
+                    let kept: Vec<VLine> = vlines.into_iter().filter(|v| v.i < upto).collect();
+                    finished.push((sline, kept));
+                    match find_culprit(prop, opts.seed, tier, last_p, blk_to, Duration::from_secs(5), &slot.seg.skip) {
+                        Some((ci, is_hang)) => {
+                            let scn = gen_scenario::<F>(opts.seed, tier, ci);
+                            let oracle = format!("{}.{}", prop, if is_hang { "hang" } else { "abort" });
+                            let tags = F::scenario_tags(&scn);
+                            let key = group_key(&oracle, &tags);
+                            let e = groups.entry(key).or_insert_with(|| Group {
+                                oracle: oracle.clone(),
+                                tags: tags.clone(),
+                                count: 0,
+                                first: None,
+                            });
+                            e.count += 1;
+                            let better = match &e.first {
+                                None => true,
+                                Some((i0, _, _)) => ci < *i0,
+                            };
+                            if better {
+                                e.first = Some((
+                                    ci,
+                                    format!("run {} {}", ci, if is_hang { "does not terminate" } else { "aborts the process" }),
+                                    serde_json::to_value(&scn).unwrap(),
+                                ));
+                            }
+                            skipped_runs += 1;
+                            respawns += 1;
+                            if respawns <= MAX_RESPAWNS {
+                                let mut skip = slot.seg.skip.clone();
+                                skip.push(ci);
+                                queue.push_back(Seg {
+                                    from: upto,
+                                    to: slot.seg.to,
+                                    skip,
+                                });
+                            } else {
+                                harness_errors.push(format!(
+                                    "more than {} worker crashes/hangs; runs {}..{} not executed",
+                                    MAX_RESPAWNS, upto, slot.seg.to
+                                ));
+                            }
+                        }
+                        None => {
+                            harness_errors.push(format!(
+                                "worker for runs {}..{} {} but the failure did not reproduce when re-running block {}..{}",
+                                slot.seg.from,
+                                slot.seg.to,
+                                if hang { "stalled" } else { "died" },
+                                last_p,
+                                blk_to
+                            ));
+                        }
+                    }
                 }
             }
         }
-        if !any {
-            break;
-        }
-        std::thread::sleep(Duration::from_millis(20));
-    }
-    for t in threads {
-        let _ = t.join();
+        std::thread::sleep(Duration::from_millis(15));
     }
 
     // ---- aggregate
     let mut agg = SLine::default();
     let mut sigs: BTreeSet<u64> = BTreeSet::new();
-    let mut groups: BTreeMap<String, Group> = BTreeMap::new();
     let mut cover: BTreeMap<String, BTreeSet<u64>> = BTreeMap::new();
-    let mut harness_errors: Vec<String> = Vec::new();
-    for (w, st) in states.iter().enumerate() {
-        let g = st.lock().unwrap();
-        if let Some(s) = &g.sline {
+    for (sline, vlines) in &finished {
+        if let Some(s) = sline {
             agg.runs += s.runs;
             agg.progressed_runs += s.progressed_runs;
             agg.ops += s.ops;
@@ -638,10 +762,8 @@ pub fn parent<F: Family>(opts: &Opts) -> i32 {
             if agg.samples.len() < 3 {
                 agg.samples.extend(s.samples.iter().take(1).cloned());
             }
-        } else if !crashed.iter().any(|(cw, _)| *cw == w) {
-            harness_errors.push(format!("worker {} ended without statistics", w));
         }
-        for v in &g.vlines {
+        for v in vlines {
             let key = group_key(&v.oracle, &v.tags);
             let e = groups.entry(key).or_insert_with(|| Group {
                 oracle: v.oracle.clone(),
@@ -658,54 +780,11 @@ pub fn parent<F: Family>(opts: &Opts) -> i32 {
             }
         }
     }
-
-    // ---- hangs / aborts: attribute to one scenario
-    let replay_dir = opts.verif_dir.join("replays");
-    let _ = std::fs::create_dir_all(&replay_dir);
-    for (w, hang) in &crashed {
-        let (from, to, last_p) = {
-            let g = states[*w].lock().unwrap();
-            (g.from, g.to, g.last_p)
-        };
-        let _ = from;
-        let blk_to = (last_p + PBLOCK).min(to);
-        println!(
-            "[{}] worker {} {} in runs {}..{}; locating the scenario",
-            prop,
-            w,
-            if *hang { "stalled" } else { "died" },
-            last_p,
-            blk_to
-        );
-        match find_culprit(prop, opts.seed, tier, last_p, blk_to, Duration::from_secs(10)) {
-            Some((i, is_hang)) => {
-                let scn = gen_scenario::<F>(opts.seed, tier, i);
-                let oracle = format!("{}.{}", prop, if is_hang { "hang" } else { "abort" });
-                let key = group_key(&oracle, &[]);
-                let e = groups.entry(key).or_insert_with(|| Group {
-                    oracle: oracle.clone(),
-                    tags: vec![],
-                    count: 0,
-                    first: None,
-                });
-                e.count += 1;
-                if e.first.is_none() {
-                    e.first = Some((
-                        i,
-                        format!("run {} {}", i, if is_hang { "does not terminate" } else { "aborts the process" }),
-                        serde_json::to_value(&scn).unwrap(),
-                    ));
-                }
-                // the rest of that worker's shard was not executed: note it
-                harness_errors.retain(|_| true);
-            }
-            None => {
-                harness_errors.push(format!(
-                    "worker {} {} but the failure did not reproduce when re-running its block",
-                    w,
-                    if *hang { "stalled" } else { "died" }
-                ));
-            }
+    // groups known only from counters (their V lines were dropped): cannot be
+    // replayed, so they must not exist
+    for (k2, g) in groups.iter() {
+        if g.first.is_none() && g.count > 0 {
+            harness_errors.push(format!("violation group {} has no recorded scenario", k2));
         }
     }
 
@@ -915,6 +994,7 @@ pub fn parent<F: Family>(opts: &Opts) -> i32 {
         "coverage": {
             "evaluations": agg.runs,
             "distinct_nontrivial": sigs.len(),
+            "distinct_nontrivial_note": if sigs.len() >= SIG_CAP { "lower bound: per-worker signature sets are capped at 1.5M entries" } else { "exact count of distinct signatures" },
             "rule": F::rule(),
             "samples": agg.samples,
             "simulated_runs": agg.runs,
@@ -974,8 +1054,8 @@ pub fn parent<F: Family>(opts: &Opts) -> i32 {
         }
         return 1;
     }
-    if agg.runs < n {
-        println!("HARNESS-ERROR only {} of {} runs executed", agg.runs, n);
+    if agg.runs + skipped_runs < n {
+        println!("HARNESS-ERROR only {} of {} runs executed", agg.runs + skipped_runs, n);
         return 2;
     }
     if !missing_probes.is_empty() {
